@@ -57,6 +57,12 @@ NOTES = {
               "aggsender harness: scenario `wide-range` (both flows): two certificates that each span 10001 blocks, with bridges and claims in the "
               "blocks at distance 100, 256, 500, 1000, 1024, 2000, 2048, 4096, 5000, 8192, 10000, 10001 from the first block"),
     "C07_6": ("caught at first run by C07 (not by C11, whose histories have no storage faults)", ""),
+    "C05_5": ("MISSED at first run (chains of at most 40 blocks, chunk sizes up to 100)",
+              "harness/c05: four directed wide-range cases (3100 / 4100 / 2100 blocks; chunk sizes 500, 1000, 2000 and, with chunk 100, a finalized "
+              "pointer that jumps ahead of a long unsafe stretch), watched events every 50 blocks and on the blocks around every multiple of 1000"),
+    "C09_6": ("MISSED by C09 at first run (caught by C20): the C09 harness hands claim EVENTS to the bridge store",
+              "C09 has a second part (props/c03_claims.py run under C09): C20's harness stream (real ClaimEvent handlers and calldata search, mixed "
+              "multi-claim transactions with a mainnet and a rollup-0 claim of the same deposit number) judged by C20Cases.spec"),
     "C16_4": ("caught at first run by C16; MISSED by the GER-store part of C04",
               "C04 GER-store part: every query is now also asked right before each reorg"),
 }
